@@ -6,7 +6,7 @@ Driver handler `ctl` (C03):
     ctl re <str>                  the six printer regexes on a line:
                                   spaceComment space indent compound(kw|none) indentKeyword unindentor
     ctl print <W<line>|N|B<text>>*  printer calls (`N` = `writeline(None)`, `B…` = `write_indented_block`):
-                                  `err indent detail… | d1 d2 …` (indent level of every written entry)
+                                  `err indent suite_is_empty detail… | d1 d2 …` (indent level of every written entry)
     ctl lex <str>                 the control-line regex at a line start: `none` | `<0|1 comment> <text>`
     ctl frag <str>                `PythonFragment`: `<kw|none> <HeaderOk>`
     ctl gen <el> CT               printer calls of the visitor + what the printer makes of them:
@@ -163,7 +163,7 @@ def handle : Handler
   | "print" :: ls => do
     let ls ← ls.mapM pLine
     let σ := run PS.init ls
-    pure (" ".intercalate ([encBool σ.err, toString σ.indent] ++ σ.detail.map showDetail ++ ["|"] ++
+    pure (" ".intercalate ([encBool σ.err, toString σ.indent, encBool σ.empty] ++ σ.detail.map showDetail ++ ["|"] ++
       σ.out.map (fun p => toString p.1)))
   | ["lex", s] => do
     let s ← decStr s
